@@ -25,6 +25,11 @@ class Proc:
             raise Infra("agent %s died (no reply to %s)" % (self.name, cmd.get("cmd")))
         return json.loads(line)
 
+    def kill(self):
+        """SIGKILL: the process dies where it stands (its kernel locks go, its files stay as they are)"""
+        self.p.kill()
+        self.p.wait(timeout=10)
+
     def close(self):
         try:
             self.call(cmd="quit")
